@@ -48,6 +48,11 @@ type Kit struct {
 	cancel context.CancelFunc
 }
 
+func setBase[T comparable](p *config.ConfigProp[T], v T) {
+	p.Stage(v)
+	p.CommitStaged()
+}
+
 // New builds a cache. metrics.Global is reset first: one cache per process at a time.
 func New(o Opts) *Kit {
 	if o.Shards == 0 {
@@ -68,10 +73,10 @@ func New(o Opts) *Kit {
 	}
 	k := &Kit{Opts: o, Dir: filepath.Join(dir, "cache")}
 	k.Cfg = config.NewDefault()
-	k.Cfg.Cache.MaxCacheSize.Overwrite(bytesize.ByteSize(o.MaxSize))
-	k.Cfg.Cache.CleanupInterval.Overwrite(duration.Duration(o.Cleanup))
-	k.Cfg.Cache.LockShards.Overwrite(o.Shards)
-	k.Cfg.Cache.Memory.MemoryBudgetPercent.Overwrite(o.MemBudget)
+	setBase(&k.Cfg.Cache.MaxCacheSize, bytesize.ByteSize(o.MaxSize))
+	setBase(&k.Cfg.Cache.CleanupInterval, duration.Duration(o.Cleanup))
+	setBase(&k.Cfg.Cache.LockShards, o.Shards)
+	setBase(&k.Cfg.Cache.Memory.MemoryBudgetPercent, o.MemBudget)
 	k.open()
 	return k
 }
@@ -102,7 +107,7 @@ func (k *Kit) Close() {
 }
 
 // SetLimit changes max_cache_size the way a run-time override does.
-func (k *Kit) SetLimit(n int64) { k.Cfg.Cache.MaxCacheSize.Overwrite(bytesize.ByteSize(n)) }
+func (k *Kit) SetLimit(n int64) { setBase(&k.Cfg.Cache.MaxCacheSize, bytesize.ByteSize(n)) }
 
 // Key returns the cache key of universe member i.
 func Key(i int) cache.CacheKey { return cache.FromString(fmt.Sprintf("verif-key-%d", i)) }
